@@ -2,7 +2,7 @@ from engine.core import Job
 META = dict(
     level="proof",
     claim="Literal mechanics proved over their full input domains on the real tokenize.c/unicode.c: UTF-8 encode/decode round trip, length and advance for every code point <= 0x10FFFF; decoder never steps over the terminating NUL and only accepts continuation bytes; every escape sequence of a 5-byte buffer denotes the C11 value and consumes exactly its characters, invalid \\\\x is diagnosed; integer literal suffix grammar and the C11 6.4.4.1p5 typing ladder for all 2^64 values x 4 bases x every suffix string.",
-    note="Assumed contract: strtoul returns the scanned value and consumes the digit run (libc). Also: UTF-16/32 string readers transcode every code point of every UTF-8 length (surrogate pairs), and the three in-place source transformers (canonicalize_newline, remove_backslash_newline, convert_universal_chars) equal their spec on every small buffer (bounded). Not covered: \\U universal character names beyond the bounded alphabet, adjacent-literal concatenation, character constants, floating literal rounding (libc strtold).",
+    note="Assumed contract: strtoul returns the scanned value and consumes the digit run (libc). Also: UTF-16/32 string readers transcode every code point of every UTF-8 length (surrogate pairs), and the three in-place source transformers (canonicalize_newline, remove_backslash_newline, convert_universal_chars) equal their spec on every small buffer (bounded). Floating constants take the value of the libc parser of their own type (strtof/strtod/strtold; assumed correctly rounded), i.e. are rounded once. Not covered: \\U universal character names beyond the bounded alphabet, adjacent-literal concatenation, character constants, floating literal rounding (libc strtold).",
     functions=["tokenize.c:read_utf16_string_literal", "tokenize.c:read_utf32_string_literal", "tokenize.c:canonicalize_newline", "tokenize.c:remove_backslash_newline", "tokenize.c:convert_universal_chars", "tokenize.c:read_universal_char", "unicode.c:encode_utf8", "unicode.c:decode_utf8", "tokenize.c:read_escaped_char", "tokenize.c:from_hex", "tokenize.c:convert_pp_int", "tokenize.c:convert_pp_number", "tokenize.c:startswith"],
     trusted_base=["CBMC 6.11", "libc strtoul (assumed contract)", "CBMC's ctype/strncasecmp models"],
     assumptions=["strtoul(p,&end,base) returns an arbitrary value and end = start + digit run"],
